@@ -6,6 +6,9 @@
 //! It holds the necessary state for a given slot to track the parent-ready condition.
 //! This is used by the [`super::ParentReadyTracker`].
 
+#[cfg(feature = "verif-hooks")]
+mod verif;
+
 use either::Either;
 use log::warn;
 use smallvec::{SmallVec, smallvec};
